@@ -670,7 +670,7 @@ package zygo
 // instruction at 0), and the flag is put back
 //@ func (*Generator).GenerateCallBySymbol
 //@ C09 assert tail-args-not-tail @before call GenerateCallArgsForFunction[0]: !gen.Tail
-//@ C09 assert jump-to-prologue @before call AddInstruction[*]: typeis(arg1, GotoInstr) ==> arg1.(GotoInstr).location == 1
+//@ C03,C09 assert jump-to-prologue @before call AddInstruction[*]: typeis(arg1, GotoInstr) ==> arg1.(GotoInstr).location == 0 && len(arg0.instructions) == lenAfterArgs + ite(gen.scopes > 0, gen.scopes, 0) + 2 && typeis(arg0.instructions[len(arg0.instructions)-1], RemoveScopeInstr)
 //@ func buildSexpFun
 //@ C09 assert function-scope-first @after call AddInstruction[0]: len(arg0.instructions) == 1
 
@@ -928,6 +928,9 @@ package zygo
 //@ C02,C04,C09 loop 0 invariant gen.scopes == old(gen.scopes) && gen.funcname == old(gen.funcname) && subgen != gen
 //@ func (*Generator).GenerateShortCircuit
 //@ C02,C04,C09 assert last-operand-scope-depth @before call Generate[0]: arg0.scopes == old(gen.scopes) && arg0.funcname == old(gen.funcname)
+// a tail self-call re-enters the function the way a call would: the activation's own function
+// scope is popped too and the jump goes to instruction 0, which makes a new function scope;
+// a closure made by an earlier iteration keeps that iteration's parameters
 //@ func (*Generator).GenerateCallBySymbol
 //@ ghost lenAfterArgs := 0 - 1 @entry
 //@ ghost lenAfterArgs := len(gen.instructions) @after call GenerateCallArgsForFunction[0]
